@@ -136,6 +136,23 @@ where
     }
 }
 
+#[cfg(feature = "verif")]
+impl<K, V> EventQueue<K, V> {
+    /// An empty queue whose epoch counter starts at the given value (to exercise wrap-around).
+    pub fn verif_with_head_epoch(head_epoch: usize) -> Self {
+        EventQueue {
+            events: Default::default(),
+            head_epoch,
+            epoch_map: Default::default(),
+        }
+    }
+
+    /// The pending operations, oldest first.
+    pub fn verif_pending(&self) -> impl Iterator<Item = &MapOperation<K, V>> + '_ {
+        self.events.iter()
+    }
+}
+
 pub type Action<K> = MapOperation<K, ()>;
 
 pub fn to_operation<K, V, M>(content: &M, action: Action<K>) -> Option<MapOperation<K, &V>>
